@@ -248,6 +248,8 @@ type Run struct {
 	// Steps: what the rt.merge / rt.merged hooks reported before each entity and after the last one:
 	// [skipped (0/1), #tripsById, #vehiclesByID, #vehiclesWithNoID, #tripIDToVehicleID, #alerts]
 	Steps abs.Seq[[]int] `json:"steps"`
+	// Empties: the message was written with a payload-less entity before, between and after its entities
+	Empties bool `json:"empties"`
 }
 
 type Record struct {
